@@ -271,4 +271,5 @@ def check(ctx):
     ctx.run('C15.R2', 'bounded raw accesses: guarded copies and tail windows', r2_bounded_accesses)
     ctx.run('C15.R2b', 'length invariant of safe edits; unguarded setters are unsafe fns', r2b_length_invariant)
     ctx.run('C15.R3', 'remove validates the range before mutating anything', r3_validate_first)
+    ctx.run('C15.R5', 'release gives back the slot taken out of self.owned unconditionally, whatever length the edits left (C08.R2)', c08.r2_release_once)
     ctx.run('C15.R4', 'capacity() is the pool buffer size', r4_capacity)
